@@ -49,3 +49,31 @@ def structured(r, n, alpha="ACGT"):
     else:
         w = _mutate(r, x + rc(x), h + r.randint(-2, 2), alpha); k = r.randrange(len(w)); w = w[k:] + w[:k]
     return fam, w
+
+
+def long_tie(r, tie, alpha="ACGT"):
+    """one (family, word): the strand choice or the least-rotation choice is tied on about `tie` letters and decided only
+    after them (so a comparison limited to a prefix / a chunk of up to `tie` letters takes the wrong decision)."""
+    fam = r.choice(["strand-tie-centre", "strand-tie-mid", "strand-tie-rot", "rot-tie", "rot-tie-3", "period-long",
+                    "period-short-late", "period-long-late"])
+    if fam == "strand-tie-centre":       # s and rc s agree on `tie` letters, differ at the (not self-complementary) centre
+        x = _word(r, alpha, tie); w = x + r.choice("ACGT") + rc(x)
+    elif fam == "strand-tie-mid":        # …differ inside a short non-palindromic middle piece
+        x = _word(r, alpha, tie); y = _word(r, "ACGT", r.randint(2, 9))
+        if y == rc(y): y = "AC" + y
+        w = x + y + rc(x)
+    elif fam == "strand-tie-rot":        # the same, started somewhere else (circular: the two strands' least rotations tie)
+        x = _word(r, alpha, tie); w = x + r.choice("ACGT") + rc(x); k = r.randrange(len(w)); w = w[k:] + w[:k]
+    elif fam == "rot-tie":               # exactly two rotations start with AA; they agree on `tie` letters, then C < G decides
+        p = "AA" + _word(r, "CGT", max(1, tie - 2)); w = p + "G" + p + "C"
+    elif fam == "rot-tie-3":             # three candidates, the decision between the best two comes after 2*tie letters
+        p = "AA" + _word(r, "CGT", max(1, tie // 2 - 2)); w = p + "T" + p + "G" + p + "T" + p + "C"
+    elif fam == "period-long":           # a power of a long word: the rotations by one period are identical
+        p = _word(r, alpha, tie); w = p * r.choice([2, 3])
+    elif fam == "period-short-late":     # a power of a short word with ONE change far from the start
+        u = _word(r, alpha, r.randint(1, 9)); w = (u * (2 * tie // len(u) + 2))[:2 * tie + 1]
+        w = _mutate(r, w, tie + r.randrange(tie), alpha)
+    else:                                # a square of a long word with one change late in the second copy
+        p = _word(r, alpha, tie); w = p + p; w = _mutate(r, w, tie + tie // 2 + r.randrange(max(1, tie // 2)), alpha)
+    k = r.randrange(len(w))
+    return fam, w, k
